@@ -13,6 +13,7 @@ import (
 	"runtime"
 	"sort"
 	"strings"
+	"sync"
 	"time"
 )
 
@@ -289,3 +290,37 @@ func DiagText(s string) string {
 	}
 	return s[len(fmt.Sprintf("Ln %d, Col %d: ", line, col)):]
 }
+
+// AllocTotal natively reports the bytes allocated since AllocBegin.
+func AllocTotal() int {
+	var ms runtime.MemStats
+	runtime.ReadMemStats(&ms)
+	return int(ms.TotalAlloc - cur.alloc.begin)
+}
+
+// Concurrently runs f in n goroutines and re-raises the first assertion failure.
+func Concurrently(n int, f func()) {
+	var wg sync.WaitGroup
+	fails := make(chan interface{}, n)
+	for i := 0; i < n; i++ {
+		wg.Add(1)
+		go func() {
+			defer wg.Done()
+			defer func() {
+				if r := recover(); r != nil {
+					fails <- r
+				}
+			}()
+			f()
+		}()
+	}
+	wg.Wait()
+	select {
+	case r := <-fails:
+		panic(r)
+	default:
+	}
+}
+
+// Iterations is 1 under the engine and n natively.
+func Iterations(n int) int { return n }
